@@ -2,6 +2,7 @@
 import CvModel.PyPrelude
 import CvGen.PyPerm
 import CvGen.PyFamilies
+import CvGen.PyGlobe
 
 namespace Cv.PyGen
 open Cv.Py
@@ -12,6 +13,7 @@ class ShowRes (α : Type) where
 instance : ShowRes (List Int) := ⟨showInts⟩
 instance : ShowRes Bool := ⟨fun b => if b then "true" else "false"⟩
 instance : ShowRes (List (List Int)) := ⟨fun l => " | ".intercalate (l.map showInts)⟩
+instance : ShowRes (List (String × List Int)) := ⟨fun l => " | ".intercalate (l.map fun p => p.1 ++ ": " ++ showInts p.2)⟩
 instance : ShowRes RawDef := ⟨fun d =>
   "gens: " ++ " | ".intercalate (d.gens.map showInts) ++
   " ; central: " ++ (match d.central with | some c => showInts c | none => "none") ++
@@ -61,6 +63,9 @@ def dispatch (fn : String) (args : List (List Int)) : String :=
   | "Fam.consecutive_k_cycles", (a0 :: _) :: (a1 :: _) :: [] => showRes (Cv.PyGen.Fam.consecutive_k_cycles a0 a1)
   | "Fam.down_cycles", (a0 :: _) :: [] => showRes (Cv.PyGen.Fam.down_cycles a0)
   | "Fam.prefix_cycles", (a0 :: _) :: [] => showRes (Cv.PyGen.Fam.prefix_cycles a0)
+  | "Globe.help_cyclic", (a0 :: _) :: (a1 :: _) :: (a2 :: _) :: [] => showRes (Cv.PyGen.Globe.help_cyclic a0 a1 a2)
+  | "Globe.globe_gens", (a0 :: _) :: (a1 :: _) :: [] => showRes (Cv.PyGen.Globe.globe_gens a0 a1)
+  | "Globe.globe_puzzle", (a0 :: _) :: (a1 :: _) :: [] => showRes (Cv.PyGen.Globe.globe_puzzle a0 a1)
   | _, _ => "ERR pygen"
 
 end Cv.PyGen
